@@ -9,6 +9,7 @@ which two independent readings disagree is never used as evidence.
 Also holds `Families`, a tiny helper that keeps only the few smallest witnesses per violation family
 (a shard would otherwise report the same root cause thousands of times and hit Collector.max_violations).
 """
+import json
 import re
 from urllib.parse import urlsplit
 
@@ -168,6 +169,11 @@ class Families(object):
         self.keep = keep
         self.best = {}
         self.totals = {}
+        self.info = {}      # informational counters: things observed and deliberately NOT flagged
+
+    def observe(self, what, example=None):
+        n, ex = self.info.get(what, (0, None))
+        self.info[what] = (n + 1, ex if ex is not None else example)
 
     def add(self, key, size, violation):
         self.totals[key] = self.totals.get(key, 0) + 1
@@ -182,7 +188,8 @@ class Families(object):
 
     def export(self):
         return {"best": [[list(k), [[s, v] for s, _, v in lst]] for k, lst in self.best.items()],
-                "totals": [[list(k), n] for k, n in self.totals.items()]}
+                "totals": [[list(k), n] for k, n in self.totals.items()],
+                "info": {k: list(v) for k, v in self.info.items()}}
 
     def absorb(self, exported):
         for k, lst in exported["best"]:
@@ -191,6 +198,9 @@ class Families(object):
                 self.totals[tuple(k)] -= 1
         for k, n in exported["totals"]:
             self.totals[tuple(k)] = self.totals.get(tuple(k), 0) + n
+        for k, (n, ex) in exported.get("info", {}).items():
+            n0, ex0 = self.info.get(k, (0, None))
+            self.info[k] = (n0 + n, ex0 if ex0 is not None else ex)
 
     def flush(self, col):
         """hand the kept witnesses to the Collector, smallest first, families in a stable order"""
@@ -200,3 +210,6 @@ class Families(object):
         if self.totals:
             col.notes.append("violating evaluations per family (clause | family): " +
                              "; ".join("%s = %d" % (" | ".join(str(x) for x in k), self.totals[k]) for k in sorted(self.totals)))
+        for k in sorted(self.info):
+            col.notes.append("observed and accepted, NOT flagged: %s: %d evaluations, e.g. %s"
+                             % (k, self.info[k][0], json.dumps(self.info[k][1])))
